@@ -20,6 +20,7 @@ import (
 type projector struct {
 	nameMap map[string]string
 	ptrs    map[ptrKey]*av.V
+	shared  map[*av.V]bool
 	err     error
 }
 
@@ -35,8 +36,8 @@ type ErrUnrepresentable struct{ What string }
 func (e *ErrUnrepresentable) Error() string { return "unrepresentable: " + e.What }
 
 func Project(v interface{}, nameMap map[string]string) (*av.V, error) {
-	p := &projector{nameMap: nameMap, ptrs: map[ptrKey]*av.V{}}
-	out := p.walk(reflect.ValueOf(v))
+	p := &projector{nameMap: nameMap, ptrs: map[ptrKey]*av.V{}, shared: map[*av.V]bool{}}
+	out := p.walk(reflect.ValueOf(v), false)
 	return out, p.err
 }
 
@@ -72,7 +73,16 @@ func ListType(t reflect.Type, nameMap map[string]string) (string, bool) {
 	return n, true
 }
 
-func (p *projector) walk(rv reflect.Value) *av.V {
+func (p *projector) walk(rv reflect.Value, static bool) *av.V {
+	n := p.walk1(rv, static)
+	if static && n != nil && !n.Static && (n.K == av.List || n.K == av.Map || n.K == av.Binary) && !p.shared[n] {
+		n.Static = true
+	}
+	p.shared[n] = true
+	return n
+}
+
+func (p *projector) walk1(rv reflect.Value, static bool) *av.V {
 	if !rv.IsValid() {
 		return av.NullV()
 	}
@@ -82,7 +92,7 @@ func (p *projector) walk(rv reflect.Value) *av.V {
 		if rv.IsNil() {
 			return av.NullV()
 		}
-		return p.walk(rv.Elem())
+		return p.walk1(rv.Elem(), false)
 	case reflect.Ptr:
 		if rv.IsNil() {
 			return av.NullV()
@@ -97,7 +107,7 @@ func (p *projector) walk(rv reflect.Value) *av.V {
 			p.fillObject(n, rv.Elem())
 			return n
 		}
-		return p.walk(rv.Elem())
+		return p.walk1(rv.Elem(), static)
 	case reflect.Bool:
 		return av.BoolV(rv.Bool())
 	case reflect.Int8, reflect.Int16, reflect.Int32:
@@ -152,7 +162,9 @@ func (p *projector) walk(rv reflect.Value) *av.V {
 			n.Typed, n.Type = true, name
 		}
 		for i := 0; i < rv.Len(); i++ {
-			n.Elems = append(n.Elems, p.walk(rv.Index(i)))
+			// the decoder knows the element type when it knows the list's Go type: from a
+			// struct field chain (static) or from the wire type name (typed)
+			n.Elems = append(n.Elems, p.walk(rv.Index(i), (static || n.Typed) && t.Elem().Kind() != reflect.Interface))
 		}
 		return n
 	case reflect.Map:
@@ -170,7 +182,8 @@ func (p *projector) walk(rv reflect.Value) *av.V {
 		}
 		it := rv.MapRange()
 		for it.Next() {
-			n.Elems = append(n.Elems, p.walk(it.Key()), p.walk(it.Value()))
+			known := static || n.Typed
+			n.Elems = append(n.Elems, p.walk(it.Key(), known && t.Key().Kind() != reflect.Interface), p.walk(it.Value(), known && t.Elem().Kind() != reflect.Interface))
 		}
 		return n
 	}
@@ -186,7 +199,12 @@ func (p *projector) fillObject(n *av.V, sv reflect.Value) {
 	}
 	for i := 0; i < t.NumField(); i++ {
 		n.Fields = append(n.Fields, LowerFirst(t.Field(i).Name))
-		n.Elems = append(n.Elems, p.walk(sv.Field(i)))
+		fresh := len(p.shared)
+		c := p.walk(sv.Field(i), t.Field(i).Type.Kind() != reflect.Interface)
+		if len(p.shared) > fresh && (c.K == av.Map || c.K == av.List || c.K == av.Binary) {
+			c.Field = true
+		}
+		n.Elems = append(n.Elems, c)
 	}
 }
 
